@@ -182,13 +182,17 @@ func insertedAt(want []string, v string, got []string) bool {
 // the caller's (grpc-go puts it first, Join-style merging last; the statement asks for neither). Other keys are
 // ignored (a transport may add its own).
 func containsRequest(c Case, got metadata.MD) []finding {
-	want := mdOf(c.Req)
-	if len(c.Creds) == 0 {
+	return containsMerged(mdOf(c.Req), c.credsMap(), got)
+}
+
+// containsMerged: want = the caller's own metadata, creds = what the credentials' GetRequestMetadata returns (may be empty).
+func containsMerged(want metadata.MD, creds map[string]string, got metadata.MD) []finding {
+	if len(creds) == 0 {
 		return contains("request", "incoming", want, got)
 	}
 	cv := map[string]string{}
 	keys := map[string]bool{}
-	for k, v := range c.credsMap() {
+	for k, v := range creds {
 		cv[strings.ToLower(k)] = v
 		keys[strings.ToLower(k)] = true
 	}
